@@ -1,6 +1,8 @@
 //! One module per property: generator + oracle + non-triviality rule.
 use crate::engine::Ctx;
 
+pub mod c01;
+pub mod c05;
 pub mod c11;
 pub mod c12;
 pub mod c13;
@@ -13,6 +15,8 @@ pub mod statgen;
 
 pub fn run(id: &str, ctx: &mut Ctx) -> bool {
     match id {
+        "C01" => c01::run(ctx),
+        "C05" => c05::run(ctx),
         "C11" => c11::run(ctx),
         "C12" => c12::run(ctx),
         "C13" => c13::run(ctx),
